@@ -473,6 +473,6 @@ def replay(ctx, path):
 
 MANIFEST = dict(
     category="proof",
-    text="Lean theorems for EVERY pair of subgrid layouts of the same global grid (any number of subgrids and cells per axis, any periodicity): the flux calls and the gradient calls of all sweeps are the same multiset (a permutation of the calls of the plain sequential sweep over the undivided grid); every call of a sweep reads only what no call of that sweep writes and accumulates with + / min / max, so any two calls commute and the cell states after one step are identical for all layouts and equal to the sequential sweep, for any flux function, limiter, prediction, state and dt (exact arithmetic); every linear extension of C07's task graph (= every completion order of the worker loop, any number of threads) gives the same state on every cell, namely that of the phase-by-phase step, because conflicting tasks of different phases are ordered by the graph and all other tasks commute; hence any layout + any schedule = the sequential sweep; with one thread the execution order is a function of layout and queue discipline only. Tied to the code by full state dumps of real steps (layout vs undivided grid vs another layout vs other thread counts, two one-thread runs bit for bit) and by the per-call logs compared as multisets.",
+    text="Lean theorems for EVERY pair of subgrid layouts of the same global grid (any number of subgrids and cells per axis, any periodicity): the flux calls and the gradient calls of all sweeps are the same multiset (a permutation of the calls of the plain sequential sweep over the undivided grid); every call of a sweep reads only what no call of that sweep writes and accumulates with + / min / max, so any two calls commute and the cell states after one step are identical for all layouts and equal to the sequential sweep, for any flux function, limiter, prediction, state and dt (exact arithmetic); every linear extension of C07's task graph (= every completion order of the worker loop, any number of threads) gives the same state on every cell, namely that of the phase-by-phase step, because conflicting tasks of different phases are ordered by the graph and all other tasks commute; hence any layout + any schedule = the sequential sweep; with one thread the execution order is a function of layout and queue discipline only. Tied to the code by full state dumps of real steps (layout vs undivided grid vs another layout vs other thread counts, two one-thread runs bit for bit) and by the per-call logs compared as multisets; in addition untraced multi-thread runs under seeded scheduling jitter (the trace hook's mutex would hide races in the child-release loop) are compared with the one-thread run through the snapshot the code writes itself.",
     note="Trusted: Lean kernel + 3 axioms; models shared with C04 (bit-exact cell-level correspondence there) and C07 (task graph tied by table dumps); exact arithmetic (round-off of summation order bounded empirically: 1e-13 x number of faces); task-level atomicity from C07/C08; bit-reproducibility of one-thread runs is tested, the model only shows that no scheduling choice remains.",
-    technique="Lean 4 proof (permutation + commutation of accumulating calls, trace-commutation argument over the task graph) + differential runs of the real hooked binary across layouts and thread counts")
+    technique="Lean 4 proof (permutation + commutation of accumulating calls, trace-commutation argument over the task graph) + differential runs of the real hooked binary across layouts and thread counts + untraced jittered stress runs (LD_PRELOAD on the H1 yield hook) compared by final snapshot")
